@@ -44,6 +44,7 @@ func init() {
 			host("C08", c08Run),
 			host("C11", c11Run),
 			host("C13/scripted", c13Run),
+			host("C04/scripted-fetch", c04ScriptedFetch),
 			host("middleware", c12Middleware),
 			host("upload-reader", c12UploadReader),
 		},
